@@ -579,6 +579,7 @@ def run_verify_cases(ctx, suite, cases, check_c01=True, expect=None, prop=None):
     expect: optional callable(case, outcome) → error text or None (extra property-specific oracle)."""
     cases = [c for c in cases if _encodable(c)]
     answers = model_eval([c.line() for c in cases]) if getattr(ctx, "driver_ok", True) else [None] * len(cases)
+    first = []
     for c, m in zip(cases, answers):
         try:
             r = c.run_impl()
@@ -625,7 +626,63 @@ def run_verify_cases(ctx, suite, cases, check_c01=True, expect=None, prop=None):
             msg = ex(c, impl)
             if msg:
                 report(ctx, prop or ctx.prop, msg, c, impl)
+        first.append(impl)
+    repeat_pass(ctx, suite, cases, first, prop)
+    deferred_pass(ctx, suite, cases, first, prop)
     return cases
+
+
+def deferred_pass(ctx, suite, cases, first, prop):
+    """The documented two-step use of the compact API: `extract_compact` now, `validate_compact` later.  All compact
+    tokens of the suite are extracted first and validated afterwards, so that other tokens are parsed between the two
+    steps of each; the verdict must be the one `deserialize_compact` gave, and the object still the one parsed."""
+    idx = [i for i, c in enumerate(cases) if c.kind == "compact"]
+    if len(idx) > 400:
+        import random as _random
+        idx = sorted(_random.Random(ctx.seed + len(cases)).sample(idx, 400))
+    objs = {}
+    for i in idx:
+        try:
+            objs[i] = jws.extract_compact(cases[i].value)
+        except Exception:  # noqa: BLE001
+            objs[i] = None
+    for i in reversed(idx):
+        c, o = cases[i], objs[i]
+        if o is None:
+            continue
+        try:
+            ok = bool(jws.validate_compact(o, impl_keyarg(c.key), **c.reg.impl_kwargs()))
+            got = ("ok", (o.payload, o.headers())) if ok else ("err", "BadSignatureError")
+        except Exception as e:  # noqa: BLE001
+            got = ("err", err_name(e))
+        ctx.count(suite + "-deferred", i, False)
+        if got != first[i]:
+            bad = got[0] == "ok"
+            ctx.report(("a token that deserialize_compact refuses is validated" if bad else "validate_compact disagrees with deserialize_compact")
+                       + f" when other tokens are extracted between extract_compact and validate_compact ({c.note}): "
+                       f"{str(first[i])[:100]} vs {str(got)[:100]}",
+                       {"case": c.describe(), "one_step": repr(first[i])[:400], "two_step": repr(got)[:400]}, f"deferred:{suite}")
+
+
+def repeat_pass(ctx, suite, cases, first, prop):
+    """Verification / decryption is a function of its arguments: a sample of the calls made above is made again at the
+    end, in another order, and must give what it gave the first time (a verdict remembered from an earlier call, a cache
+    keyed too coarsely, state left behind by another case would show here)."""
+    import random as _random
+    idx = list(range(len(cases)))
+    _random.Random(len(cases) * 7919 + ctx.seed).shuffle(idx)
+    for i in idx[: max(40, len(cases) // 8)]:
+        c = cases[i]
+        try:
+            again = ("ok", c.run_impl())
+        except BaseException as e:  # noqa: BLE001
+            if isinstance(e, (KeyboardInterrupt, SystemExit)):
+                raise
+            again = ("err", err_name(e))
+        ctx.count(suite + "-repeat", i, False)
+        if again != first[i]:
+            ctx.report(f"the same call gave {str(first[i])[:120]} the first time and {str(again)[:120]} when repeated later in the process ({c.note})",
+                       {"case": c.describe(), "first": repr(first[i])[:400], "again": repr(again)[:400]}, f"repeat:{suite}")
 
 
 def report(ctx, prop, text, case, impl, extra=None):
